@@ -1126,6 +1126,14 @@ def nu_name_depth(x, d):
 def nu_level(x, d):
     return "main" if x == "main" else "v%d" % d
 
+def nu_collide(x, d):
+    """all names collide pairwise in the compiler's identifier hash (front/hash.c: val*33 + c): the two-character blocks
+    "az" and "bY" contribute the same amount, so every string of k such blocks behind a common prefix has one hash value.
+    Lookups that compare anything less than the identifier text itself resolve to the wrong binding."""
+    if x == "main":
+        return "main"
+    return "q" + "".join("az" if (d >> i) & 1 else "bY" for i in range(max(7, d.bit_length())))
+
 def rn_var(nu, bs, x):
     """bs: list of names, innermost LAST"""
     for i in range(len(bs) - 1, -1, -1):
